@@ -130,6 +130,9 @@ def run(ctx):
                     if vf.has_field(a, c.LW + "types::TxLogEntry", "tx_type") and ("agg", TLT, ty) in b_ and vf.has_call(a, UPD + "retrieve_txs"):
                         dup.append(x)
         held = bool(keyed) and bool(dup)
+        if keyed:
+            from .shared import duplicate_lookup_complete
+            duplicate_lookup_complete(ctx, R3, f, keyed[0][0], keyed[0][1])
         if held:
             x = dup[0]
             same = x.true_edges if x.op == "Eq" else x.false_edges
